@@ -242,7 +242,7 @@ Definition hex_digit (d : N) : N := if d <? 10 then 48 + d else 55 + d.
 Definition hex_upper (l : bytes) : bytes := flat_map (fun b => [hex_digit (b / 16); hex_digit (b mod 16)]) l.
 
 Definition spec_datetime (v : bytes) : option bytes :=
-  let pad := B "00:00:00" in
+  if negb (bytes_okb v) then None else
   match hex_upper v with
   | y1 :: y2 :: y3 :: y4 :: m1 :: m2 :: d1 :: d2 :: t =>
     let date := [y1; y2; y3; y4; 45; m1; m2; 45; d1; d2; 84] in
